@@ -303,7 +303,13 @@ func caseWS(c *mon.Case, sp spec) {
 		if err != nil {
 			panic(envError{err})
 		}
-		d.SetOption(mangos.OptionReconnectTime, time.Hour)
+		redial := c.Rand.Intn(3) == 0 // the first connection is lost at once: the dialer's second upgrade request is judged like its first
+		if redial {
+			d.SetOption(mangos.OptionReconnectTime, 3*time.Millisecond)
+			d.SetOption(mangos.OptionMaxReconnectTime, 3*time.Millisecond)
+		} else {
+			d.SetOption(mangos.OptionReconnectTime, time.Hour)
+		}
 		dial := mon.Go("Dial", func() (interface{}, error) { return nil, d.Dial() })
 		up := mon.Go("ws-upgrade", func() (interface{}, error) { return <-srv.ups, nil })
 		if !wait("ws/dial-no-upgrade-request", "raw server receiving the library's upgrade request", up) {
@@ -324,6 +330,32 @@ func caseWS(c *mon.Case, sp spec) {
 			return
 		}
 		conn = u.conn
+		if redial {
+			if !c.AwaitOrViolate("ws/not-attached:"+tag, "pipe attaching after the websocket upgrade ["+tag+"]", func() bool { return pw.Attached() >= 1 }, mon.AwaitOpts{}) {
+				return
+			}
+			conn.Close()
+			up2 := mon.Go("ws-upgrade-2", func() (interface{}, error) { return <-srv.ups, nil })
+			if !wait("ws/redial-no-upgrade-request", "raw server receiving the upgrade request of the dialer's reconnect", up2) {
+				return
+			}
+			v2, _, _ := up2.Result()
+			u2 := v2.(wsUp)
+			c.Count("ws_dialer_offers_checked", 1)
+			if len(u2.offers) != 1 || u2.offers[0] != want {
+				c.Violate("ws/dialer-offer-wrong:"+tag, "on reconnecting the dialer offered %q (header %q), the mapping requires exactly %q", u2.offers, u2.raw, want)
+				return
+			}
+			if u2.conn == nil {
+				c.Inconclusive("the raw server could not upgrade the reconnect")
+				return
+			}
+			d.SetOption(mangos.OptionReconnectTime, time.Hour)
+			conn = u2.conn
+			if !c.AwaitOrViolate("ws/not-attached:"+tag, "pipe attaching after the dialer's reconnect ["+tag+"]", func() bool { return pw.Attached() >= 2 }, mon.AwaitOpts{}) {
+				return
+			}
+		}
 	}
 	if !c.AwaitOrViolate("ws/not-attached:"+tag, "pipe attaching after the websocket upgrade ["+tag+"]", func() bool { return pw.Attached() >= 1 }, mon.AwaitOpts{}) {
 		return
@@ -331,6 +363,53 @@ func caseWS(c *mon.Case, sp spec) {
 	pid := pw.LastID()
 	nIn, nOut := 0, 0
 	shape := ""
+
+	// peer -> library: a few messages written back to back, all on the wire before the application
+	// takes the first (each must still be delivered as itself)
+	if canRecv(sp.Sock) && c.Rand.Intn(2) == 0 {
+		type bm struct{ payload, wantHdr, body []byte }
+		var burst []bm
+		for i := 0; i < 4; i++ {
+			wh, want := inbound(sp.Sock, c.Rand, pid)
+			body := rndBytes(c.Rand, 20+c.Rand.Intn(400))
+			burst = append(burst, bm{append(append([]byte{}, wh...), body...), want, body})
+		}
+		wr := mon.Go("ws-write-burst", func() (interface{}, error) {
+			for _, b := range burst {
+				if err := conn.WriteMessage(websocket.BinaryMessage, b.payload); err != nil {
+					return nil, err
+				}
+			}
+			return nil, nil
+		})
+		if !wait("harness:ws-write-stuck", "raw peer writing four messages back to back", wr) {
+			return
+		}
+		if _, err, _ := wr.Result(); err != nil {
+			c.Violate("ws/peer-write-failed:"+tag, "WriteMessage of well-formed binary messages failed: %v", err)
+			return
+		}
+		mon.Sleep(3 * time.Millisecond)
+		for i, b := range burst {
+			rc := mon.Go("RecvMsg", func() (interface{}, error) { return sock.RecvMsg() })
+			if !wait("ws/message-not-delivered", fmt.Sprintf("RecvMsg of message %d of a back-to-back burst", i), rc) {
+				return
+			}
+			v, err, _ := rc.Result()
+			if err != nil {
+				c.Violate("ws/recv-error:"+tag, "RecvMsg returned %v", err)
+				return
+			}
+			m := v.(*mangos.Message)
+			if !bytes.Equal(m.Header, b.wantHdr) || !bytes.Equal(m.Body, b.body) {
+				c.Violate("ws/delivered-differs:"+tag, "message %d of 4 written back to back: delivered Header % x (want % x), Body %d bytes (want %d), first difference at %d",
+					i, m.Header, b.wantHdr, len(m.Body), len(b.body), firstDiff(m.Body, b.body))
+				return
+			}
+			m.Free()
+		}
+		c.Count("ws_back_to_back_messages_compared", len(burst))
+	}
 
 	// peer -> library: one binary message each
 	if canRecv(sp.Sock) {
@@ -503,12 +582,13 @@ func caseWS(c *mon.Case, sp spec) {
 // findTap returns the relayed connection whose upgrade request names path
 // (other connections to the tap's port are strays from other processes).
 func findTap(t *spcodec.Tap, path string) *spcodec.TapConn {
+	var last *spcodec.TapConn // the most recent one: a dialer may have reconnected
 	for _, tc := range t.Conns() {
 		if bytes.Contains(head(tc.C2S(), 1024), []byte(" "+path+" ")) {
-			return tc
+			last = tc
 		}
 	}
-	return nil
+	return last
 }
 
 func sizeBucket(n int) string {
